@@ -274,6 +274,9 @@ def generate(rng: random.Random, tier: str) -> dict:
     trace = {"schema": 1, "property": ID, "engine": "world", "config": config, "groups": groups, "params": params, "world": w, "schedule_seed": rng.randrange(1 << 30), "schedule": None}
     n_steps = rng.choice([0, 0, 1, 2]) if n <= 8 else 0
     trace["events"] = [{"op": "step", "g": [[rng.randrange(1 << 30), "gauss", 1.0] for _ in params]} for _ in range(n_steps)]
+    if n_steps == 0 and rng.random() < 0.3:
+        # a parameter frozen (requires_grad=False) at construction still has an owner, a buffer view and state
+        trace["frozen"] = [rng.randrange(len(params))]
     return trace
 
 
@@ -285,6 +288,8 @@ def execute(trace: dict) -> Outcome:
     probes[f"{w['kind']}_world"] += 1
     if w["comm_dtype"] == "BF16":
         probes["bf16_comm"] += 1
+    if trace.get("frozen"):
+        probes["frozen_param_world"] += 1
     v = None
     if sim.outcome != "ok":
         r = next((r for r in sim.ranks if r.exc is not None), None)
